@@ -11,7 +11,7 @@ p=os.path.join(ROOT,'DESIGN.md')
 s=open(p).read()
 begin='| seeded change | what it needs to manifest | caught by (quick tier, seed 1) |\n|---|---|---|\n'
 a=s.index(begin)+len(begin)
-b=s.index('\n\n---', a)
+b=s.index('\n\n', a)
 s=s[:a]+'\n'.join(rows)+s[b:]
 open(p,'w').write(s)
 print(len(rows),'rows')
